@@ -370,6 +370,8 @@ class Fn:
             return "(" + ", ".join(self.ex(x) for x in e.elts) + ")"
         if isinstance(e, ast.List):
             return "[" + ", ".join(self.ex(x) for x in e.elts) + "]"
+        if isinstance(e, ast.Set):
+            return "(mkSet [" + ", ".join(self.ex(x) for x in e.elts) + "])"
         if isinstance(e, ast.Dict):
             if not e.keys:
                 return "[]"
@@ -574,7 +576,10 @@ class Fn:
             if n == "sorted" and len(e.args) == 1 and not kw:
                 return f"(sortedStr {self.atom(e.args[0])})"          # sorting a collection of strings
             if n == "sorted" and len(e.args) == 1 and set(kw) == {"key"} and isinstance(kw["key"], ast.Lambda):
-                return f"(sortedBy {self.lam(kw['key'])} {self.atom(e.args[0])})"
+                key = self.lam(kw["key"])
+                if key == "OPTSTR":
+                    return f"(sortedOptStr {self.atom(e.args[0])})"       # optional strings, `None` last
+                return f"(sortedBy {key} {self.atom(e.args[0])})"
             raise Unsupported("call of " + n)
         if isinstance(f, ast.Attribute):
             if (f.attr == "replace" and not e.args and set(kw) == {"tzinfo"} and isinstance(kw["tzinfo"], ast.Attribute)
@@ -618,6 +623,8 @@ class Fn:
         if l.args.defaults or l.args.vararg or l.args.kwarg or len(l.args.args) != 1:
             raise Unsupported("lambda")
         x = l.args.args[0].arg
+        if ast.unparse(l.body) == f"({x} is None, {x})":
+            return "OPTSTR"          # `sorted(values, key=lambda x: (x is None, x))`: see `call`
         if ast.unparse(l.body) in (f"({x}.time is None, {x}.time)", f"({x} is None, {x}.time)"):
             # the sort key "points without a time last, then by time": a point that storage returns has a time
             return f"(fun {x} => (timeOf {x}).us)"
@@ -1171,7 +1178,7 @@ INDEX_METHODS = [
 # the methods of `TinyFlux` that are translated (the list level: storage is the decoded view of its rows)
 DATABASE_METHODS = ["_reset_database", "_remove_helper", "count", "contains",
                     "__len__", "get_field_keys", "get_field_values", "get_measurements", "get_tag_keys", "get_timestamps",
-                    "search", "get", "reindex", "remove_all", "all", "remove", "drop_measurement"]
+                    "search", "get", "reindex", "remove_all", "all", "remove", "drop_measurement", "get_tag_values"]
 INDEX_READERS = ("get_field_keys", "get_field_values", "get_measurements", "get_tag_keys", "get_tag_values", "get_timestamps")
 
 
